@@ -186,12 +186,16 @@ class Builder:
                 body = body[:le + 1] + text + '\n' + body[le + 1:]
             self.log.add('R2b', where, anchor, 'ghost block ' + pos)
         return body
-    def slice_fn(self, fname, sig, body, where, requires=(), clauses=(), props=(), extra_rules=(), prologue='', epilogue='', decreases=None, loops=None, blocks=None, pre=None):
+    def slice_fn(self, fname, sig, body, where, requires=(), clauses=(), props=(), extra_rules=(), prologue='', epilogue='', decreases=None, loops=None, blocks=None, pre=None, reveal=None):
         """R7: a closure body / statement range lifted into a generated fn `sig` (written by the unit), body byte-for-byte + dialect rules."""
         from . import dialect as D
         body = D.strip_attrs_and_docs(body, self.log, where)
         body = D.apply_rules(body, self.log, where, extra_rules)
         if pre: body = pre(body, self.log, where)
+        if reveal is not None:
+            self.reveal_literals('{' + body + '}', reveal, where)
+            ghost = self._last_ghost
+            prologue = (prologue + '\n' if prologue else '') + ghost.strip('\n')
         self.log.add('R7', where, 'slice', sig)
         if loops: body = self._annotate_loops(body, loops, where)
         if blocks: body = self._insert_blocks(body, blocks, where)
@@ -230,6 +234,7 @@ class Builder:
             if l not in seen: seen.add(l); out.append(l)
         ghost = '\n        proof { ' + ' '.join('reveal_strlit(%s);' % l for l in out) + ' }'
         self.log.add('R2c', where, '%d string literals' % len(out), 'reveal_strlit(..) ghost prologue')
+        self._last_ghost = ghost
         return t[:bo + 1] + ghost + t[bo + 1:]
     def _map_block_lines(self, first, fname):
         bl = getattr(self, '_block_labels', {})
